@@ -11,7 +11,7 @@ import (
 
 var defaultPatterns = []string{"./pkg/bitio", "./pkg/ranges", "./internal/bitiox", "./internal/mathx", "./pkg/decode", "./pkg/interp",
 	"./internal/aheadreadseeker", "./internal/progressreadseeker", "./format/inet/flowsdecoder", "./internal/hexpairwriter", "./internal/asciiwriter",
-	"./internal/gojqx", "./format/toml", "./format/xml", "./format/yaml", "./format/csv", "./format/crypto", "./format/text", "./format/json", "./internal/columnwriter", "./format/pcap"}
+	"./internal/gojqx", "./format/toml", "./format/xml", "./format/yaml", "./format/csv", "./format/crypto", "./format/text", "./format/json", "./internal/columnwriter", "./format/pcap", "./internal/colorjson"}
 
 func Main(args []string) int {
 	if len(args) == 0 {
